@@ -27,9 +27,17 @@ type pnode struct {
 	p    *pool.PeerPool
 	h    http.Handler
 	up   bool
+	hung bool // not up, and instead of refusing connections it never answers (black hole)
 }
 
+// Peer-list styles: how each node is told about its peers.
+const (
+	styleAll        = "peers=all"         // every node gets the full list, itself included
+	styleOthersDesc = "peers=others-desc" // every node gets only the OTHER nodes, in descending order
+)
+
 type psys struct {
+	style string
 	names []string
 	nodes map[string]*pnode
 	ids   []string
@@ -41,6 +49,17 @@ func (s *psys) RoundTrip(req *http.Request) (*http.Response, error) {
 	n := s.nodes[req.URL.Host]
 	if n == nil {
 		return nil, fmt.Errorf("verif: no such host %q", req.URL.Host)
+	}
+	// like a real transport, honour the request's deadline / cancellation
+	if err := req.Context().Err(); err != nil {
+		return nil, err
+	}
+	if dl, ok := req.Context().Deadline(); ok && !time.Now().Before(dl) {
+		return nil, context.DeadlineExceeded
+	}
+	if n.hung {
+		<-req.Context().Done()
+		return nil, req.Context().Err()
 	}
 	if !n.up {
 		return nil, errors.New("verif: connection refused (node down)")
@@ -66,10 +85,19 @@ func pickIDs(ns []string) []string {
 	return out
 }
 
-func newPsys(ns []string) *psys {
-	s := &psys{names: ns, nodes: map[string]*pnode{}}
+func peersFor(style, n string, ns []string) []string {
+	if style == styleOthersDesc {
+		o := without(ns, n)
+		sort.Sort(sort.Reverse(sort.StringSlice(o)))
+		return o
+	}
+	return ns
+}
+
+func newPsys(ns []string, style string) *psys {
+	s := &psys{style: style, names: ns, nodes: map[string]*pnode{}}
 	for _, n := range ns {
-		p := mkPool(n, ns)
+		p := mkPool(n, peersFor(style, n, ns))
 		mux := http.NewServeMux()
 		p.RegisterHandlers(mux)
 		p.VerifC17SetTransport(s)
@@ -250,14 +278,21 @@ func (s *psys) Apply(op string) string {
 	return obs
 }
 
-func (s *psys) Fingerprint() string {
+func (s *psys) Fingerprint() string { return s.fingerprint(false) }
+
+// fingerprint: capFailures folds consecutiveFailures counters at the threshold
+// (used where real health loops keep counting for peers that stay down).
+func (s *psys) fingerprint(capFailures bool) string {
 	var sb strings.Builder
+	skip := map[string]bool{"PeerPool.httpClient": true, "PeerPool.healthCheckClient": true, "PeerPool.healthCancel": true}
+	if capFailures {
+		skip["peerHealth.consecutiveFailures"] = true
+	}
 	for _, n := range s.names {
 		pn := s.nodes[n]
 		fmt.Fprintf(&sb, "%s up=%v ", n, pn.up)
 		// the HTTP clients hold the transport (this harness); healthCancel is a func
-		sb.WriteString(deepdump.Dump(pn.p, deepdump.Options{IgnoreTimes: true, SkipFields: map[string]bool{
-			"PeerPool.httpClient": true, "PeerPool.healthCheckClient": true, "PeerPool.healthCancel": true}}))
+		sb.WriteString(deepdump.Dump(pn.p, deepdump.Options{IgnoreTimes: true, SkipFields: skip}))
 		sb.WriteString("\n")
 	}
 	return sb.String()
@@ -280,12 +315,18 @@ func sysModels(run *report.Run) []*explore.Model {
 	}
 	var ms []*explore.Model
 	for _, tr := range triples {
-		tr := tr
-		ms = append(ms, &explore.Model{
-			Name: "pool.PeerPool-x3", Config: strings.Join(tr, ","),
-			New:   func() explore.System { return newPsys(tr) },
-			Depth: depth, NoDedupDepth: 2, Classify: classify, Budget: 10 * time.Minute,
-		})
+		for _, style := range []string{styleAll, styleOthersDesc} {
+			tr, style := tr, style
+			d := depth
+			if style == styleOthersDesc {
+				d-- // second configuration style: one level shallower keeps the quick tier in budget
+			}
+			ms = append(ms, &explore.Model{
+				Name: "pool.PeerPool-x3", Config: strings.Join(tr, ",") + " " + style,
+				New:   func() explore.System { return newPsys(tr, style) },
+				Depth: d, NoDedupDepth: 2, Classify: classify, Budget: 10 * time.Minute,
+			})
+		}
 	}
 	return ms
 }
